@@ -135,10 +135,21 @@ def collect(t, rnd):
         obs.append(e)
     # ---- bulk status strings: label of the returned colour
     bl = [(a, b, bool(i & 1)) for i, (a, b) in enumerate(pl[: (300 if t == "quick" else 2500)])]
-    res = make_readable_bulk([(a, b, lg) for a, b, lg in bl], mode=0)
-    for (a, b, lg), (col, status) in zip(bl, res):
-        if isinstance(col, (tuple, list)) and len(col) == 3 and all(isinstance(x, int) for x in col):
-            obs.append({"k": "bulk", "c": list(col), "b": list(b), "large": lg, "status": str(status)})
+    # extreme text colours (cannot move further from the background) on mid-tone backgrounds: the returned colour often
+    # equals the input and its label lies between the requirement levels
+    for g in range(60, 200, 4 if t == "quick" else 1):
+        for a in ((0, 0, 0), (255, 255, 255)):
+            bl.append((a, (g, g, g), bool(g & 4)))
+    import pairs as _pairs
+    for vr in (False, True):
+        for mode in (0, 1, 2):
+            sub = bl[mode::3] if t == "quick" else bl
+            res = make_readable_bulk([(a, b, lg) for a, b, lg in sub], mode=mode, very_readable=vr)
+            res += make_readable_bulk([("#%02x%02x%02x" % a, b, lg) for a, b, lg in sub[-40:]], mode=mode, very_readable=vr)
+            for (a, b, lg), (col, status) in zip(sub + sub[-40:], res):
+                css, _lib = _pairs.readbacks(col)
+                if css:
+                    obs.append({"k": "bulk", "c": css, "b": list(b), "large": lg, "status": str(status)})
     return obs, missing
 
 
